@@ -29,6 +29,13 @@ def build(spec):
         return bytes([a[0]]) * a[1]
     if k == 'A':
         return [build(a[0]) for _ in range(a[1])]
+    if k == 'R':
+        # the very same object referenced several times (an acyclic value all the same)
+        x = build(a[0])
+        return [x] * a[1]
+    if k == 'Rm':
+        x = build(a[0])
+        return {i: x for i in range(a[1])}
     if k == 'm':
         return {build(kk): build(vv) for kk, vv in a}
     if k == 'M':
@@ -47,12 +54,21 @@ def build(spec):
     raise ValueError(spec)
 
 
-def to_u(v, umsgpack):
-    """model value -> the value handed to umsgpack (RExt -> umsgpack.Ext)."""
-    if isinstance(v, list):
-        return [to_u(x, umsgpack) for x in v]
-    if isinstance(v, dict):
-        return {k: to_u(x, umsgpack) for k, x in v.items()}
+def to_u(v, umsgpack, memo=None):
+    """model value -> the value handed to umsgpack (RExt -> umsgpack.Ext).  Objects shared inside the model value
+    are shared in the result too."""
+    if memo is None:
+        memo = {}
+    if isinstance(v, (list, dict)):
+        if id(v) in memo:
+            return memo[id(v)]
+        if isinstance(v, list):
+            out = memo[id(v)] = []
+            out.extend(to_u(x, umsgpack, memo) for x in v)
+        else:
+            out = memo[id(v)] = {}
+            out.update((k, to_u(x, umsgpack, memo)) for k, x in v.items())
+        return out
     if isinstance(v, RExt):
         return umsgpack.Ext(v.type, v.data)
     return v
@@ -116,6 +132,25 @@ def _f32(x):
     return struct.unpack('>f', struct.pack('>f', x))[0]
 
 
+def shapes():
+    """Values whose shape (not size) is unusual: one container object referenced from several places; the same
+    word as str key and as bin key of one map; keys of every scalar type."""
+    h = lambda w: w.encode('ascii').hex()
+    out = []
+    for inner in ([], [1], [[2]], {'m': []}, {'m': [[{'s': 'k'}, 1]]}, {'A': [None, 16]}):
+        for n in (2, 3):
+            out.append({'R': [inner, n]})
+            out.append({'Rm': [inner, n]})
+            out.append([0, {'R': [inner, n]}, {'R': [inner, n]}])
+    for w in WORDS:
+        out.append({'m': [[{'b': h(w)}, 1]]})
+        out.append({'m': [[{'b': h(w)}, 1], [{'s': w}, 2]]})
+        out.append({'m': [[{'s': w}, 1], [{'b': h(w)}, 2]]})
+        out.append([{'b': h(w)}, {'s': w}])
+    out.append({'m': [[{'b': ''}, 1], [{'s': ''}, 2], [None, 3], [True, 4], [False, 5], [0, 6], [fspec(0.5), 7], [-1, 8]]})
+    return out
+
+
 def boundary_floats():
     """Doubles at and next to the values single precision can hold (an encoder that picks the 4-byte form for a double
     that is only close to a single loses bits), around the single-precision range limits, halfway between singles."""
@@ -134,6 +169,9 @@ def boundary_floats():
         out.append((b + nb) / 2)           # halfway between two singles
     out += [3.5e38, -3.5e38, 1e39, 3.4028235677973366e+38, 7e-46, 2.2250738585072014e-308, 1.7976931348623157e308]
     return out
+
+
+WORDS = ['a', 'name', 'sources', '_x1', 'dyn_modules']
 
 
 def rand_scalar(rng, key=False):
@@ -169,6 +207,10 @@ def rand_scalar(rng, key=False):
         if key and x != x:
             x = 2.5
         return fspec(x)
+    if key and t in (4, 5) and rng.random() < 0.3:
+        # the same short word as a str key and as a bin key (the two are different keys)
+        w = rng.choice(WORDS)
+        return {'s': w} if t == 4 else {'b': w.encode('ascii').hex()}
     if t == 4:
         n = rng.choice((0, 1, 3, 15, 16, 31, 32, 33, 40, 255, 256, 300)) if rng.random() < 0.5 else rng.randrange(0, 70)
         if rng.random() < 0.6:
@@ -201,6 +243,8 @@ def rand_value(rng, depth, budget=None):
     budget[0] -= 1
     if depth <= 0 or budget[0] <= 0 or rng.random() < 0.35:
         return rand_scalar(rng)
+    if rng.random() < 0.08:
+        return {rng.choice(('R', 'R', 'Rm')): [rand_value(rng, depth - 1, budget), rng.choice((2, 2, 3))]}
     if rng.random() < 0.55:
         n = rng.choice((0, 1, 2, 3, 5, 15, 16, 17)) if rng.random() < 0.7 else rng.randrange(0, 24)
         n = min(n, max(0, budget[0]))
